@@ -4,7 +4,7 @@ T-HOO / HCT / VHCT), C06 (growth rule of the tree bandits).
 C04 builds ctx.ledger, which the other oracles read; it must be armed before them."""
 import math
 
-from .engine import Oracle, HarnessError, close, ge_tol, ceil_set, fhex
+from .engine import Oracle, HarnessError, close, ge_tol, ceil_set, fhex, _plist
 
 TREE_KINDS = ("T_HOO", "HCT", "VHCT")
 WRAPPERS = ("POO", "GPO", "PCT", "VPCT")
@@ -473,6 +473,17 @@ class C04(Oracle):
                 ctx.probes["gpo-rounds-after-schedule"] += 1
                 return
             vr = _attr(g, "V_reward")
+            # "the score of the point being validated": every pull of a validation block returns one and the same point, and
+            # it is the point the score under update belongs to (V_x[-1])
+            if not self.val_rewards:
+                self.val_point = p
+            elif not same_point(self.val_point, p):
+                ctx.fail("C04", "validation-point", "%s: validation round %d of the block evaluated %s, the block started on %s; the reward "
+                         "is booked on one score" % (name, len(self.val_rewards) + 1, _plist(p), _plist(self.val_point)))
+            vx = getattr(g, "V_x", None)
+            if isinstance(vx, list) and vx and isinstance(vx[-1], list) and not same_point(vx[-1], p):
+                ctx.fail("C04", "validation-point", "%s: the reward of the evaluation of %s is booked on the score of %s" % (
+                    name, _plist(p), _plist(vx[-1])))
             self.val_rewards.append(r)
             m = math.fsum(float(x) for x in self.val_rewards) / len(self.val_rewards)
             if not vr or not close(float(vr[-1]), m, scale=max(abs(float(x)) for x in self.val_rewards)):
